@@ -57,37 +57,38 @@ example : ((((Flat.new.setNull 2).insert 1 777).insert 0 555).active) = [555, 77
 
 section search
 open Search
-variable {σ π : Type}
+variable {σ π : Type} [PsInv σ]
 
 /-- Every reported variation is a sequence of moves playable in turn from the root (the invariant
     behind it: after `alphaBeta … ply` returns, aborted or not, row `ply` of the PV is a legal line
     from the node's position — `alphaBeta_spec`). -/
 theorem reported_pv_legal (c : Comp σ π) (L : Limits) (clock : Clock) {Good : Board → Prop} (hl : Laws c Good)
-    (fuel : Nat) (e : Engine σ) (b : Board) (hg : Good b) (nodes0 : Int) :
+    (fuel : Nat) (e : Engine σ) (b : Board) (hg : Good b) (hok : PsInv.ok e.ps) (nodes0 : Int) :
     ∀ i ∈ (go c L clock fuel e b nodes0).out, LegalLine c.keys b i.pv :=
-  (go_post c L clock hl fuel e b hg nodes0).out_legal
+  (go_post c L clock hl fuel e b hg hok nodes0).out_legal
 
 /-- The move returned is the first move of the most recent non-empty reported variation
     (when output is on and such a line exists; otherwise C06 applies). -/
 theorem bestmove_is_head_of_last_nonempty_pv (c : Comp σ π) (L : Limits) (clock : Clock) {Good : Board → Prop}
-    (hl : Laws c Good) (fuel : Nat) (e : Engine σ) (b : Board) (hg : Good b) (nodes0 : Int) (ho : L.output = true)
+    (hl : Laws c Good) (fuel : Nat) (e : Engine σ) (b : Board) (hg : Good b) (hok : PsInv.ok e.ps) (nodes0 : Int)
+    (ho : L.output = true)
     (i : Info) (hi : lastPV (go c L clock fuel e b nodes0).out = some i) :
     i.pv.head? = some (go c L clock fuel e b nodes0).move :=
-  (go_out c L clock hl fuel e b hg nodes0).head ho i hi
+  (go_out c L clock hl fuel e b hg hok nodes0).head ho i hi
 
 /-- The ponder move, when given, is playable after the returned move. -/
 theorem ponder_legal_after_bestmove (c : Comp σ π) (L : Limits) (clock : Clock) {Good : Board → Prop} (hl : Laws c Good)
-    (fuel : Nat) (e : Engine σ) (b : Board) (hg : Good b) (nodes0 : Int)
+    (fuel : Nat) (e : Engine σ) (b : Board) (hg : Good b) (hok : PsInv.ok e.ps) (nodes0 : Int)
     (hp : (go c L clock fuel e b nodes0).ponder ≠ 0) :
     LegalLine c.keys b [(go c L clock fuel e b nodes0).move, (go c L clock fuel e b nodes0).ponder] :=
-  ((go_post c L clock hl fuel e b hg nodes0).ponder_ok).resolve_left hp
+  ((go_post c L clock hl fuel e b hg hok nodes0).ponder_ok).resolve_left hp
 
 /-- Within one search reported depths strictly increase and reported node counts never decrease
     (`out` is newest first; the abort notice is included). -/
 theorem depths_increase_nodes_monotone (c : Comp σ π) (L : Limits) (clock : Clock) {Good : Board → Prop}
-    (hl : Laws c Good) (fuel : Nat) (e : Engine σ) (b : Board) (hg : Good b) (nodes0 : Int) :
+    (hl : Laws c Good) (fuel : Nat) (e : Engine σ) (b : Board) (hg : Good b) (hok : PsInv.ok e.ps) (nodes0 : Int) :
     (go c L clock fuel e b nodes0).out.Pairwise fun newer older => older.depth < newer.depth ∧ older.nodes ≤ newer.nodes :=
-  (go_out c L clock hl fuel e b hg nodes0).sorted
+  (go_out c L clock hl fuel e b hg hok nodes0).sorted
 
 /-- non-vacuity of the hypotheses (see Props/C06.lean for the intended instance). -/
 example (K : Keys) : Laws (demoComp K) NoMen ∧ NoMen Board.empty := ⟨demo_laws K, noMen_empty⟩
